@@ -161,29 +161,37 @@ def check(ctx):
 
     K3 = ctx.rule("K3", "encodings: EC coordinates fixed width, RSA minimal, ECDSA r/s padded by size-len, OKP x = SPKI base64url minus its 16-character prefix")
     ct.padding_rules(ctx, K3)
-    eb = prog.must_body(KEYS + "::get_eddsa_jwk")
-    rr = eb.calls_to("alloc::string::String::replace_range")
-    ctx.floor(K3, "replace_range in get_eddsa_jwk", len(rr), 1)
-    for c in rr:
-        sl = arg_origins(c, 1)
-        ends = [x.get("int") for x in sl.consts if "int" in x]
-        rng = sl.aggs
-        ctx.require(K3, ends == [16] and any(a.endswith("RangeTo") for a, v in rng), c.where(), "the removed prefix is exactly the first 16 base64 characters = 12-byte SPKI prefix (found ..%s)" % ends, [KEYS + "::get_eddsa_jwk", "prefix"])
-        x = arg_origins(c, 0, through=True)
-        ctx.require(K3, any("public_key_to_pem" in z.name for z in x.calls), c.where(), "x is cut out of the key's own public PEM", [KEYS + "::get_eddsa_jwk", "source"])
-    from .guards import body_family
-    efam = body_family(prog, KEYS + "::get_eddsa_jwk")      # the function, helpers inlined into it, and the closures they hand to adaptors
-    reps = [c for fb in efam for c in fb.calls_to("core::str::<impl str>::replace", "alloc::str::<impl str>::replace")]
-    pairs = set()
-    for c in reps:
-        ch = []
-        for i_ in (1, 2):
-            cs_ = [z for z in arg_origins(c, i_).consts if "char" in z or "str" in z]
-            ch.append(str(cs_[0].get("char", cs_[0].get("str"))) if cs_ else "?")
-        pairs.add(tuple(ch))
-    ctx.require(K3, {("/", "_"), ("+", "-")} <= pairs, "%s:%s" % (eb.file, eb.line), "base64 -> base64url: '/'->'_' and '+'->'-' (found %s)" % sorted(pairs), [KEYS + "::get_eddsa_jwk", "url-alphabet"])
-    tr = [c for fb in efam for c in fb.calls_to("core::str::<impl str>::trim_end_matches")]
-    ctx.require(K3, any((c.body.const_of(c.args[1]) or {}).get("char") == "=" for c in tr), "%s:%s" % (eb.file, eb.line), "padding '=' is removed", [KEYS + "::get_eddsa_jwk", "no-padding"])
+    okp = ct.okp_x_table(prog)
+    if okp is not None:
+        eb0 = prog.body(KEYS + "::get_eddsa_jwk") or prog.must_body(KEYS + "::jwk_public_key")
+        ctx.floor(K3, "OKP x evaluations", len(okp), 12)
+        for kt_, entry_, got_, want_ in okp:
+            ctx.require(K3, got_ == want_, "%s:%s" % (eb0.file, eb0.line), "%s of a %s key whose raw public key encodes to %s: x = %s" % (entry_, kt_, want_, got_),
+                        [KEYS + "::get_eddsa_jwk", "x-evaluated", kt_, entry_, want_[:8]])
+    else:
+        eb = prog.must_body(KEYS + "::get_eddsa_jwk")
+        rr = eb.calls_to("alloc::string::String::replace_range")
+        ctx.floor(K3, "replace_range in get_eddsa_jwk", len(rr), 1)
+        for c in rr:
+            sl = arg_origins(c, 1)
+            ends = [x.get("int") for x in sl.consts if "int" in x]
+            rng = sl.aggs
+            ctx.require(K3, ends == [16] and any(a.endswith("RangeTo") for a, v in rng), c.where(), "the removed prefix is exactly the first 16 base64 characters = 12-byte SPKI prefix (found ..%s)" % ends, [KEYS + "::get_eddsa_jwk", "prefix"])
+            x = arg_origins(c, 0, through=True)
+            ctx.require(K3, any("public_key_to_pem" in z.name for z in x.calls), c.where(), "x is cut out of the key's own public PEM", [KEYS + "::get_eddsa_jwk", "source"])
+        from .guards import body_family
+        efam = body_family(prog, KEYS + "::get_eddsa_jwk")      # the function, helpers inlined into it, and the closures they hand to adaptors
+        reps = [c for fb in efam for c in fb.calls_to("core::str::<impl str>::replace", "alloc::str::<impl str>::replace")]
+        pairs = set()
+        for c in reps:
+            ch = []
+            for i_ in (1, 2):
+                cs_ = [z for z in arg_origins(c, i_).consts if "char" in z or "str" in z]
+                ch.append(str(cs_[0].get("char", cs_[0].get("str"))) if cs_ else "?")
+            pairs.add(tuple(ch))
+        ctx.require(K3, {("/", "_"), ("+", "-")} <= pairs, "%s:%s" % (eb.file, eb.line), "base64 -> base64url: '/'->'_' and '+'->'-' (found %s)" % sorted(pairs), [KEYS + "::get_eddsa_jwk", "url-alphabet"])
+        tr = [c for fb in efam for c in fb.calls_to("core::str::<impl str>::trim_end_matches")]
+        ctx.require(K3, any((c.body.const_of(c.args[1]) or {}).get("char") == "=" for c in tr), "%s:%s" % (eb.file, eb.line), "padding '=' is removed", [KEYS + "::get_eddsa_jwk", "no-padding"])
 
     K4 = ctx.rule("K4", "algorithm tables: default, compatibility, dispatch, header text")
     ct.check_alg_tables(ctx, K4)
